@@ -40,6 +40,10 @@ type kvVer struct {
 	Data      string `json:"d"`
 	Deleted   bool   `json:"x,omitempty"`
 	Destroyed bool   `json:"y,omitempty"`
+	// Damaged: a destroy / metadata delete naming this version failed half-way
+	// on non-transactional storage (data removed, metadata still lists it);
+	// the statement only promises that a failed WRITE changes nothing
+	Damaged bool `json:"z,omitempty"`
 }
 
 type kvState struct {
@@ -89,6 +93,9 @@ type kvOut struct {
 	Destroyed bool
 	Version   int
 	Custom    string
+	// Faulted: a storage error was injected somewhere while this request ran
+	// (only then may a read fail with an internal error)
+	Faulted bool
 }
 
 // kvCanon renders a data map canonically ("a=1,b=2").
@@ -127,6 +134,35 @@ func kvParse(c string) map[string]string {
 // effect (e.g. destroy marks the version, then removes its data).
 func kvSteps(st kvState, in kvIn, out kvOut) []kvState {
 	if out.Err == "other" {
+		if in.Op == "read" && !out.Faulted {
+			// a read that fails although no storage error was injected: legal
+			// only for a version that a failed destroy / metadata delete left
+			// half-removed; anything else (e.g. data pruned by a failed write
+			// while the metadata still lists the version) is a violation
+			v := in.Version
+			if v == 0 {
+				v = st.Cur
+			}
+			if ver := st.Vers[v]; ver != nil && ver.Damaged {
+				return []kvState{st}
+			}
+			return nil
+		}
+		if in.Op == "destroy" || in.Op == "purge" {
+			ok := out
+			ok.Err = ""
+			res := []kvState{st}
+			if good, n := kvStep(st, in, ok); good {
+				res = append(res, n)
+			}
+			d := st.clone()
+			for v, ver := range d.Vers {
+				if in.Op == "purge" || v == in.Version {
+					ver.Damaged = true
+				}
+			}
+			return append(res, d)
+		}
 		if in.Op == "write" || in.Op == "patch" || in.Op == "read" {
 			return []kvState{st}
 		}
@@ -407,8 +443,14 @@ func runC14(rc *RunCtx) {
 		case "purge":
 			r = Req{Op: logical.DeleteOperation, Path: "v2/metadata/" + in.Path, Token: h.Root}
 		}
+		s.mu.Lock()
+		faultsBefore := s.Faults["err-na"]
+		s.mu.Unlock()
 		resp, err := h.Do(tag, r)
 		out := kvOut{}
+		s.mu.Lock()
+		out.Faulted = s.Faults["err-na"] > faultsBefore
+		s.mu.Unlock()
 		msg := ""
 		if err != nil {
 			msg = err.Error()
